@@ -224,6 +224,19 @@ fn emit(spec: &ScanSpec, subject_expr: &str, level: u32, indent: usize, out: &mu
 }
 
 fn gen_spec(rng: &mut Rng, depth: usize) -> ScanSpec {
+    if depth == 0 && rng.chance(1, 25) {
+        // a table of 33-48 literal arms: dozens of candidates per round, many of them tied for
+        // the earliest start, found at offsets that are not in arm order
+        let n = rng.range(33, 48);
+        let mut regexes = Vec::new();
+        for _ in 0..n {
+            let len = rng.range(1, 3);
+            let lit: String = (0..len).map(|_| *rng.pick(&["a", "b", "/", ".", "é", " "])).collect();
+            let r = if rng.chance(1, 4) { format!("({})", regex::escape(&lit)) } else { regex::escape(&lit) };
+            regexes.push(r);
+        }
+        return ScanSpec { nested: regexes.iter().map(|_| None).collect(), silent: regexes.iter().map(|_| false).collect(), regexes };
+    }
     let n = rng.range(1, 4);
     let mut regexes = Vec::new();
     let mut nested = Vec::new();
@@ -324,6 +337,9 @@ impl Prop for C10 {
         emit(&spec, "subject", 0, 1, &mut text, &mut counter);
         text.push_str("}\n");
         let case = || json!({"dsl": text, "subject": subject});
+        if spec.regexes.len() > 32 {
+            out.feat("scan_with_more_than_32_arms");
+        }
         let any_nullable = res.iter().flatten().any(|r| r.is_match(""));
         // expected sequence under both readings
         let run = |absolute: bool| -> Expect {
